@@ -32,6 +32,7 @@ EXPLANATION = (
   + " (FIN-merge) the paragraph merger, interpreted on sample snapshots (divs nested at several depths, a nested div between paragraphs, one or several regions), leaves one paragraph per region holding the spans of all its paragraphs in document order with one line break between consecutive paragraphs;"
   + " (DEP-round, shared with C12) ClockTime.from_seconds, which prints every cue time, derives hours, minutes, seconds and milliseconds from one value rounded once to the millisecond;"
   + " (PRUNE-sites) every `return None` of ISD._process_element is one of the grounds for leaving an element out of a snapshot (inactive, another region, display=none, the final emptiness rule) or anticipates the final rule, and every `return <element>` comes after the activity test and the region test: nothing inactive and nothing of another region is handed to the snapshot and to the cues;"
+  + " (FIN-eol) SrtParagraph and VttCue, interpreted on sequences of append_text() calls followed by normalize_eol(), leave a payload without an empty line and without line breaks at its ends, whether the line breaks arrive one per call or several inside one text node;"
 )
 RULE_TEXT = ("one rule instance per (function, live loop), per (flattener, element kind), per writer for SEQ-end / FIN-default; "
              "distinct = distinct (rule, construct) pairs")
@@ -246,6 +247,8 @@ def check_finish(ctx):
 
 
 def run(ctx):
+  from ..rules import probes as _probes2
+  ctx.floor("FIN-eol", "append sequences decided", _probes2.check_payload_eol(ctx), 12)
   from ..rules import isdrules as _isdr5
   ctx.floor("PRUNE-sites", "return sites of _process_element", _isdr5.check_prune_sites(ctx, ctx.ix.func("ttconv.isd:ISD._process_element")), 6)
   from . import c12 as _c12r
